@@ -114,7 +114,11 @@ def _marshal(frame_type: int, channel_id: int, payload: bytes) -> bytes:
 def _marshal_content_body_frame(value: body.ContentBody,
                                 channel_id: int) -> bytes:
     """Marshal as many content body frames as needed to transmit the content"""
-    return _marshal(constants.FRAME_BODY, channel_id, value.marshal())
+    payload = value.marshal()
+    if not isinstance(payload, bytes):
+        # The frame size is a count of bytes, len() of other buffers of items
+        payload = memoryview(payload).tobytes()
+    return _marshal(constants.FRAME_BODY, channel_id, payload)
 
 
 def _marshal_content_header_frame(value: header.ContentHeader,
